@@ -39,6 +39,7 @@ const (
 	opLookup
 	opSetLimit
 	opExtend
+	opPrelude // marker: the thread that starts with it runs to completion before the others start
 )
 
 type c06Op struct{ kind, arg int }
@@ -55,6 +56,8 @@ func (o c06Op) String() string {
 		return fmt.Sprintf("SetLimit(%d)", o.arg)
 	case opExtend:
 		return fmt.Sprintf("Extend#%d(%s)", o.arg, c06Exts[o.arg].desc)
+	case opPrelude:
+		return "[runs first, sequentially]"
 	}
 	return "?"
 }
@@ -66,6 +69,8 @@ var c06Inputs = [][]byte{
 	[]byte(`{"a":1}      x`), // JSON when cut at 8, plain text in full
 	[]byte(`<html><meta charset="koi8-r">`),
 	[]byte("PK\x03\x04" + "\x00\x00\x00\x00\x00\x00\x00\x00\x00\x00\x00\x00\x00\x00\x00\x00\x00\x00\x00\x00\x00\x00\x08\x00\x00\x00" + "mimetype"),
+	[]byte(`{"abcdefgh":1}`), // cut at 8 inside the key: JSON as a header of 8, JSON in full, but not JSON if sliced by 8 and judged as a whole file
+	[]byte("a,b\n1,2\n3"),    // CSV only if the last line is dropped although the whole file was given
 }
 
 var c06Names = []string{"text/plain", "x/r0", "x/r0-a", "application/x-zip", "x/r1", "x/r1-b"}
@@ -309,6 +314,19 @@ func c06Exec(x *explore.Exec, sc c06Scenario) (bool, string, string, string) {
 	}
 	for ti, ops := range sc {
 		ti, ops := ti, ops
+		if len(ops) > 0 && ops[0].kind == opPrelude {
+			// sequential prelude: no scheduler yet, logical time -1 (before everything)
+			for i, o := range ops[1:] {
+				r := &c06Rec{thread: ti, idx: i, op: o}
+				recs = append(recs, r)
+				c06DoOp(r, func() int { return -1 }, func(k string) { s.Point(k, nil) })
+				r.acq, r.rel = -3+i, -3+i
+				if r.op.kind != opExtend {
+					r.acq, r.rel = -1, -1
+				}
+			}
+			continue
+		}
 		s.Go(func() {
 			for i, o := range ops {
 				r := &c06Rec{thread: ti, idx: i, op: o}
@@ -360,7 +378,7 @@ func c06Exec(x *explore.Exec, sc c06Scenario) (bool, string, string, string) {
 	var exts []*c06Rec
 	for _, r := range recs {
 		if r.op.kind == opExtend {
-			if r.acq < 0 {
+			if r.acq == -1 {
 				r.acq, r.rel = r.s0, r.s1
 			}
 			exts = append(exts, r)
@@ -565,6 +583,13 @@ func c06RaceChild(c *core.Ctx, args []string) int {
 		var wg sync.WaitGroup
 		start := make(chan struct{})
 		for ti, ops := range sc {
+			if len(ops) > 0 && ops[0].kind == opPrelude {
+				for i, o := range ops[1:] {
+					r := &c06Rec{thread: ti, idx: i, op: o}
+					c06DoOp(r, func() int { return 0 }, func(string) {})
+				}
+				continue
+			}
 			wg.Add(1)
 			go func(ti int, ops []c06Op) {
 				defer wg.Done()
@@ -594,7 +619,17 @@ func c06Scenarios(thorough bool) []c06Scenario {
 	S := func(v int) c06Op { return c06Op{opSetLimit, v} }
 	E := func(i int) c06Op { return c06Op{opExtend, i} }
 	T := func(ops ...c06Op) []c06Op { return ops }
+	P := func(ops ...c06Op) []c06Op { return append([]c06Op{{opPrelude, 0}}, ops...) }
 	curated := []c06Scenario{
+		{P(E(0)), T(L(1)), T(L(2))},
+		{P(E(0)), T(L(1), L(2)), T(L(2), L(0))},
+		{P(E(0), E(2)), T(L(1)), T(D(2))},
+		{P(E(1)), T(L(4)), T(L(5)), T(L(0))},
+		{P(E(0)), T(D(2)), T(D(2))},
+		{P(S(8)), T(D(3)), T(S(3072))},
+		{P(S(8)), T(D(6)), T(S(3072))},
+		{T(D(7)), T(S(5))},
+		{T(D(6), D(7)), T(S(8), S(5))},
 		{T(D(2)), T(E(0))},
 		{T(D(2)), T(E(1))},
 		{T(D(2), D(2)), T(E(0))},
@@ -635,7 +670,7 @@ func c06Scenarios(thorough bool) []c06Scenario {
 	if !thorough {
 		return curated
 	}
-	alphabet := []c06Op{D(0), D(1), D(2), D(3), R(3), L(0), L(1), L(2), S(8), S(0), E(0), E(1), E(2)}
+	alphabet := []c06Op{D(0), D(1), D(2), D(3), D(6), D(7), R(3), L(0), L(1), L(2), S(8), S(5), S(0), E(0), E(1), E(2)}
 	isWriter := func(o c06Op) bool { return o.kind == opSetLimit || o.kind == opExtend }
 	out := append([]c06Scenario{}, curated...)
 	// all 2-thread scenarios: one op versus one or two ops, at least one writer
